@@ -198,6 +198,9 @@ func C13(c *Ctx) {
 			noise[k] = byte(rng.Intn(256))
 		}
 		many = append(many, string(noise), "A <- 'x'\n"+string(noise[:3000]))
+		for _, bom := range []string{"\xff\xfe", "\xfe\xff", "\xef\xbb\xbf", "\xff\xfe\x00\x00", "\x00\x00\xfe\xff"} {
+			many = append(many, bom, bom+"A", bom+"A\x00", bom+"A <- 'a'\n", bom+"A\x00 \x00<\x00-\x00 \x00'\x00a\x00'\x00\n\x00", bom+"A\x00 \x00<\x00-\x00 \x00'\x00a\x00'\x00\n")
+		}
 		for i, t := range many {
 			for _, f := range [][]string{{}, {"-cache"}, {"-optimize-grammar", "-optimize-parser"}} {
 				jobs = append(jobs, job{[]byte(t), f, i%2 == 0, i%3 == 0, "many-errors"})
